@@ -312,6 +312,19 @@ func Corpus(tier string, embedded []*Schema) []*Schema {
 		m.repeated("packed_mid", 20, tUint32, "")
 		m.mapField("tail_map", 100, tInt32, tString, "")
 		f.MessageType = append(f.MessageType, m.msg)
+		// oneofs whose field numbers run against their declaration order (the first declared uses the largest numbers)
+		r := newMsg(pkg, "Reordered")
+		s1 := r.oneof("source")
+		s2 := r.oneof("payload")
+		s3 := r.oneof("extra")
+		r.member(s1, "user", 16, tString, "")
+		r.member(s1, "system", 17, tInt32, "")
+		r.member(s2, "text", 2, tString, "")
+		r.member(s2, "blob", 30, tBytes, "")
+		r.member(s3, "flag", 4, tBool, "")
+		r.field("id", 1, tInt32, "")
+		r.field("seq", 9, tInt32, "")
+		f.MessageType = append(f.MessageType, r.msg)
 		add(&Schema{Name: "order", Files: []*descriptorpb.FileDescriptorProto{f}})
 	}
 
@@ -772,6 +785,9 @@ func Corpus(tier string, embedded []*Schema) []*Schema {
 		m.member(o, "k", 4, tEnum, "."+pkg+".Kind")
 		m.member(o, "l", 5, tEnum, "."+pkg+".m.Local")
 		fm.MessageType = append(fm.MessageType, m.msg)
+		// the same-package import of same.proto marked weak (an import modifier that changes nothing for a file of the
+		// same Go package: it is still initialised first)
+		fm.WeakDependency = []int32{1}
 		// a file that declares nothing at all, in its own Go package and imported by m.proto; and one that declares only a
 		// service over imported messages
 		fz := file("vc/enumonly/empty.proto", pkg+".z", goPkg("enumonly", "z"))
@@ -1080,6 +1096,16 @@ func Corpus(tier string, embedded []*Schema) []*Schema {
 		lf.DefaultValue = proto.String("LEVEL_HIGH")
 		lo.field("name", 2, tString, "").DefaultValue = proto.String("x")
 		lo.field("count", 3, tInt32, "").DefaultValue = proto.String("7")
+		lo.field("raw", 4, tBytes, "").DefaultValue = proto.String("a\\001b")
+		lo.field("lo", 5, tDouble, "").DefaultValue = proto.String("-inf")
+		lo.field("hi", 6, tFloat, "").DefaultValue = proto.String("inf")
+		lo.field("nn", 7, tDouble, "").DefaultValue = proto.String("nan")
+		lo.field("on", 8, tBool, "").DefaultValue = proto.String("true")
+		lo.field("big", 9, tUint64, "").DefaultValue = proto.String("18446744073709551615")
+		lo.field("ratio", 10, tFloat, "").DefaultValue = proto.String("1.5")
+		// a field whose Go name this plugin would rename in a file of its own (`type` -> Type_): the proto2 file is not
+		// its file, the names the stock generator gave stay
+		lo.field("type", 11, tInt32, "").DefaultValue = proto.String("3")
 		l2.MessageType = append(l2.MessageType, lo.msg)
 		mid := file("vc/mixed/mid.proto", "vc.mixed.mid", goPkg("mixed", "mid"), l2.GetName())
 		mid.PublicDependency = []int32{0}
@@ -1098,6 +1124,34 @@ func Corpus(tier string, embedded []*Schema) []*Schema {
 		am.repeated("more", 2, tMessage, zm.path)
 		a.MessageType = append(a.MessageType, am.msg)
 		add(&Schema{Name: "mixed", Files: []*descriptorpb.FileDescriptorProto{l2, mid, z, a}, Generate: []string{mid.GetName(), a.GetName()}, PbGo: []string{l2.GetName(), z.GetName()}})
+		// the same request with the proto2 files listed as files to generate too (protoc lists whatever is on its command
+		// line): they produce no file, and what is generated for the others does not change
+		cl2 := func(f *descriptorpb.FileDescriptorProto) *descriptorpb.FileDescriptorProto {
+			c := proto.Clone(f).(*descriptorpb.FileDescriptorProto)
+			c.Name = proto.String(strings.Replace(c.GetName(), "vc/mixed/", "vc/mixedall/", 1))
+			c.Package = proto.String(strings.Replace(c.GetPackage(), "vc.mixed", "vc.mixedall", 1))
+			c.Options.GoPackage = proto.String(strings.Replace(c.Options.GetGoPackage(), "/mixed/", "/mixedall/", 1))
+			for i, d := range c.Dependency {
+				c.Dependency[i] = strings.Replace(d, "vc/mixed/", "vc/mixedall/", 1)
+			}
+			var fix func(m *descriptorpb.DescriptorProto)
+			fix = func(m *descriptorpb.DescriptorProto) {
+				for _, fd := range m.Field {
+					if fd.TypeName != nil {
+						fd.TypeName = proto.String(strings.Replace(fd.GetTypeName(), ".vc.mixed.", ".vc.mixedall.", 1))
+					}
+				}
+				for _, n := range m.NestedType {
+					fix(n)
+				}
+			}
+			for _, m := range c.MessageType {
+				fix(m)
+			}
+			return c
+		}
+		l2b, midb, zb, ab := cl2(l2), cl2(mid), cl2(z), cl2(a)
+		add(&Schema{Name: "mixedall", Files: []*descriptorpb.FileDescriptorProto{l2b, midb, zb, ab}, PbGo: []string{l2b.GetName(), zb.GetName()}, SomeNoFile: []string{l2b.GetName(), zb.GetName()}})
 	}
 	{
 		f := file("vc/nestedext.proto", "vc.nestedext", goPkg("nestedext", ""), "google/protobuf/descriptor.proto")
@@ -1132,6 +1186,39 @@ func Corpus(tier string, embedded []*Schema) []*Schema {
 			files = append(files, fp)
 		}
 		add(&Schema{Name: "wktgen", Files: files})
+	}
+
+	// ---- two proto packages that share one Go package, one importing the other
+	{
+		fa := file("vc/twopkg/a.proto", "vc.twopkg.alpha", goPkg("twopkg", ""))
+		am := newMsg("vc.twopkg.alpha", "Alpha")
+		am.field("id", 1, tInt32, "")
+		fa.MessageType = append(fa.MessageType, am.msg)
+		fa.EnumType = append(fa.EnumType, enum("Grade", "GRADE_UNSPECIFIED", 0, "GRADE_A", 1))
+		fb := file("vc/twopkg/b.proto", "vc.twopkg.beta", goPkg("twopkg", ""), "vc/twopkg/a.proto")
+		bm := newMsg("vc.twopkg.beta", "Beta")
+		bm.field("alpha", 1, tMessage, am.path)
+		bm.mapField("grades", 2, tString, tEnum, ".vc.twopkg.alpha.Grade")
+		fb.MessageType = append(fb.MessageType, bm.msg)
+		// message options that carry unknown (custom) option records of every wire type, a group among them
+		var unk []byte
+		unk = protowire.AppendTag(unk, 50020, protowire.StartGroupType)
+		unk = protowire.AppendTag(unk, 1, protowire.VarintType)
+		unk = protowire.AppendVarint(unk, 5)
+		unk = protowire.AppendTag(unk, 2, protowire.BytesType)
+		unk = protowire.AppendBytes(unk, []byte("in group"))
+		unk = protowire.AppendTag(unk, 50020, protowire.EndGroupType)
+		unk = protowire.AppendTag(unk, 50021, protowire.Fixed32Type)
+		unk = protowire.AppendFixed32(unk, 7)
+		unk = protowire.AppendTag(unk, 50022, protowire.Fixed64Type)
+		unk = protowire.AppendFixed64(unk, 9)
+		unk = protowire.AppendTag(unk, 50023, protowire.BytesType)
+		unk = protowire.AppendBytes(unk, []byte("custom"))
+		unk = protowire.AppendTag(unk, 37383685, protowire.VarintType) // protoc-gen-go's track_field_use annotation, off
+		unk = protowire.AppendVarint(unk, 0)
+		bm.msg.Options = &descriptorpb.MessageOptions{}
+		bm.msg.Options.ProtoReflect().SetUnknown(unk)
+		add(&Schema{Name: "twopkg", Files: []*descriptorpb.FileDescriptorProto{fa, fb}})
 	}
 
 	// ---- two more known findings, each isolated in a schema of its own
